@@ -12,10 +12,10 @@ from pgverif.gen import signatures as S
 
 TIERS = {
     'quick': dict(shards=8, cases=120, calls=20, family_every=2, sibling_calls=6,
-                  histories=2, steps=6, decorated_calls=9, nested=3, annotated_calls=8),
+                  histories=2, steps=6, decorated_calls=9, nested=3, annotated_calls=6, special_calls=4),
     'thorough': dict(shards=16, cases=1500, calls=40, family_every=3, sibling_calls=6,
-                     histories=2, steps=6, decorated_calls=9, nested=3, annotated_calls=8,
-                     timeout_s=3000),
+                     histories=2, steps=6, decorated_calls=9, nested=3, annotated_calls=6,
+                     special_calls=4, timeout_s=3000),
 }
 RULE = ('case = one generated signature (0-4 positional parameters with/without '
         'defaults, *args, 0-3 keyword-only parameters with/without defaults, '
@@ -62,7 +62,22 @@ RULE = ('case = one generated signature (0-4 positional parameters with/without 
         'cloned and JSON round-tripped: the user __init__ must have run exactly once '
         'per completing binding with the final arguments (instrumented class), the '
         'functor call must return what the function returns, sym_missing must be '
-        'empty and sym_init_args must describe the final arguments. The oracle binds '
+        'empty and sym_init_args must describe the final arguments. Every case adds an '
+        'ANNOTATED signature (any shape; every parameter, *args and **kwargs annotated '
+        'with a Union in either member order, PEP 604 unions, Optional, Optional[Union], '
+        'unions with str / bool / None, nested unions, List[Union], plain types; defaults of '
+        'a member type) typed from the annotations (pg.symbolize / pg.functor / pg.wrap with '
+        'auto_typing=True, or pg.functor with the explicit pg.typing.Union specs), '
+        '`annotated_calls` ways of supplying arguments whose values have the exact type of one '
+        'member (also equal to the default but of another member type), compared '
+        'type-sensitively with the direct call, the reported arguments, clone, JSON and '
+        'pickle. **kwargs: 2-4 extra keywords in arbitrary order; the order in which the '
+        'callable sees them is compared with the direct call when all were passed in one go, '
+        'and between an object and its clone / JSON forms (to_json, to_json_str, o.to_json, '
+        'hide_default_values=True) / pickle copy always. Late binding of *args (whole list, '
+        'append, one element by path). Every case adds a signature of a SPECIAL legal shape '
+        '(first parameter of a plain function named self / cls / this / other / obj; '
+        'positional-only parameters), `special_calls` ways of supplying arguments. The oracle binds '
         'each part with inspect.signature(f).bind_partial, merges by name and '
         'calls the plain callable. Non-trivial = the signature has at least two '
         'kinds of parameters and at least one call returned and one was '
@@ -76,11 +91,15 @@ REQUIRED_COUNTERS = ['functor_calls_compared', 'class_constructions_compared',
                      'history_partial_completions',
                      'decorated_functor_calls_compared', 'decorated_class_constructions_compared',
                      'nested_completions_checked', 'nested_modifications_checked',
-                     'nested_init_runs_checked', 'nested_functor_calls_compared']
+                     'nested_init_runs_checked', 'nested_functor_calls_compared',
+                     'annotated_functor_calls_compared', 'annotated_class_constructions_compared',
+                     'varkw_order_checks', 'pickle_checks', 'special_functor_calls_compared']
 ASSUMPTIONS = [
     'inspect.signature(f).bind_partial and the call f(*args, **kwargs) are the reference for argument binding',
     'documented functor rules: positional values at call time fill positions from 0; a name bound twice is a TypeError unless override_args; later binding wins with override_args',
-    'not generated (left open): positional-only parameters, *args supplied both at construction and at call, keywords named like the *args/**kwargs parameters, MISSING_VALUE as an argument, ignore_extra_args',
+    'not generated (left open): *args supplied both at construction (or bound later) and at call, keywords named like the *args/**kwargs parameters, a keyword named like a positional-only parameter when the signature has **kwargs, `self=` / `cls=` given by keyword to a constructor call, MISSING_VALUE as an argument, ignore_extra_args',
+    'annotated signatures: only values whose exact type is a member of the annotation are generated (plain Python does not check types; the library checks them, and converts int to float for a plain `float`, as documented); a parameter whose annotation admits None always has a default (whether Optional[...] implies the default None is left open); equivalent annotations (Union[int, float] for int | float) describe the same signature',
+    'the order of **kwargs is defined by one call (PEP 468); when they were bound in several steps only the agreement between an object and its copies is checked; a pickle round trip is judged like a JSON round trip (defaults are written as values); pickle needs the symbolic class under its name in its module (as after a decorator), which the harness arranges for the time of the round trip',
     'after a JSON round trip only parameters without any value are bound at call time (defaults are serialized as values)',
     'values are ints (always for annotated signatures), short strings, None, small lists/dicts/tuples; containers are compared by content',
     'a function is symbolized with the defaults / annotations its function object has at that moment (inspect.signature); it is not changed afterwards; members of a family are renamed before they are symbolized (symbolic classes are registered by name)',
@@ -148,6 +167,7 @@ class Target:
     self.fsrc = S.render_function(sig, self.fname)
     self.csrc = S.render_class(sig, self.cname)
     if f is None:
+      self.deep_late = True
       exec(self.fsrc, ns)  # pylint: disable=exec-used
       exec(self.csrc, ns)  # pylint: disable=exec-used
       self.f = ns[self.fname]
@@ -253,6 +273,8 @@ class Target:
 
   # -- how values are chosen (overridden by targets with their own value classes) --
   annotated = False
+  has_class = True
+  deep_late = False     # late binding below an argument (append / element path)
 
   @property
   def picklable(self):
@@ -368,12 +390,24 @@ def pickled(obj):
       ns[name] = old
 
 
-# The documented ways of a JSON round trip (all write every bound argument).
+# The documented ways of a JSON round trip.  All but the last write every bound
+# argument; `hide_default_values=True` leaves out the arguments that have their
+# default value, which the restored object then has as defaults again.
 JSON_FORMS = [
-    lambda o: pg.from_json(pg.to_json(o)),
-    lambda o: pg.from_json_str(pg.to_json_str(o)),
-    lambda o: pg.from_json(o.to_json()),
+    ('', lambda o: pg.from_json(pg.to_json(o))),
+    ('', lambda o: pg.from_json_str(pg.to_json_str(o))),
+    ('', lambda o: pg.from_json(o.to_json())),
+    ('hide_default_values', lambda o: pg.from_json(pg.to_json(o, hide_default_values=True))),
 ]
+
+
+def copy_forms(c, t):
+  """[(clause, label, kind override or None, round trip)] for this check."""
+  tag, fn = JSON_FORMS[c['json_checks'] % len(JSON_FORMS)]
+  forms = [('json-differs', 'json-round-trip', tag or None, fn)]
+  if c['json_checks'] % 4 == 1 and t.picklable:
+    forms.append(('pickle-differs', 'pickle-round-trip', None, pickled))
+  return forms
 
 
 def outcome(fn):
@@ -455,16 +489,16 @@ def check_report(ctx, t, kind, obj, state, witness, what='reported-args', where=
   return ok
 
 
-def check_functor_props(ctx, t, fo, state, witness):
+def check_functor_props(ctx, t, fo, state, witness, suffix=''):
   named, varargs, extra = state
   spec = set(named) | set(extra) | ({t.sig['varargs']} if varargs else set())
   unbound = {n for n in t.pos + t.kwo if n not in named and n not in t.defaults}
   ctx.counters['reported_args_checks'] += 1
   if set(fo.specified_args) != spec:
-    ctx.violation('reported-args', f'{t.fkind}:specified_args',
+    ctx.violation('reported-args', f'{t.fkind}:specified_args{suffix}',
                   f'bound by the user {sorted(spec)}; specified_args {sorted(fo.specified_args)}', witness)
   if set(fo.unbound_args) != unbound or bool(fo.is_fully_bound) != (not unbound):
-    ctx.violation('reported-args', f'{t.fkind}:unbound_args',
+    ctx.violation('reported-args', f'{t.fkind}:unbound_args{suffix}',
                   f'without a value {sorted(unbound)}; unbound_args {sorted(fo.unbound_args)}, '
                   f'is_fully_bound {fo.is_fully_bound}', witness)
 
@@ -480,6 +514,8 @@ def check_signature(ctx, t):
   for kind, where, fn, drop in ((t.fkind, '__init__', t.F.__init__, True),
                                 (t.ckind, '__init__', t.C.__init__, True),
                                 (t.ckind, 'class', t.C, False)):
+    if kind == t.ckind and not t.has_class:
+      continue
     c['signature_checks'] += 1
     try:
       ps = params(fn, drop)
@@ -538,10 +574,23 @@ def functor_call(ctx, t, j, rng):
   else:
     (a1, k1), (a2, k2) = S.split_call(rng, a, k)
     cand = t.pos + t.kwo + (['zz'] if sig['varkw'] else [])
+    if sig['varargs'] and t.deep_late:
+      cand.append(sig['varargs'])
     for n in rng.sample(cand, min(len(cand), rng.randint(1, 2))):
       # (a value equal to the current one is "no change" for rebind: left open)
       how = rng.choice(['rebind', 'setattr'])
-      rebinds += t.late_bindings(rng, n, how)
+      if n == sig['varargs']:
+        # *args bound later: the whole list, one more element, one element replaced
+        how = rng.choice([how, 'append', 'item'])
+        v = t.rebind_value(rng, n)
+        rebinds.append((n, [v, t.rebind_value(rng, n)][:rng.randint(1, 2)] if how in ('rebind', 'setattr')
+                        else v, how))
+      else:
+        rebinds += t.late_bindings(rng, n, how)
+    if any(n == sig['varargs'] for n, _, _ in rebinds):
+      a2 = a2[:len(t.pos)]        # (*args bound before the call and at the call: left open)
+    if any(h in ('append', 'item') for _, _, h in rebinds):
+      pattern = 'rebind-below'
   # *args given at both times is left open by the documentation.
   if sig['varargs'] and len(a1) > len(t.pos) and len(a2) > len(t.pos):
     a2 = a2[:len(t.pos)]
@@ -577,7 +626,18 @@ def functor_call(ctx, t, j, rng):
   # late binding
   for n, v, how in rebinds:
     named, varargs, extra = state
-    if n in t.pos + t.kwo:
+    if n == sig['varargs']:
+      cur = list(varargs)
+      if how == 'item' and not cur:
+        how = 'append'
+      if how == 'append':
+        cur.append(v)
+      elif how == 'item':
+        cur[-1] = v
+      else:
+        cur = list(v)
+      varargs = tuple(cur)
+    elif n in t.pos + t.kwo:
       named = dict(named, **{n: v})
     else:
       extra = dict(extra, **{n: v})
@@ -585,13 +645,19 @@ def functor_call(ctx, t, j, rng):
     ctx.label = 'functor.' + how
     if how == 'rebind':
       fo.rebind({n: v}, raise_on_no_change=False)
+    elif how == 'append':
+      getattr(fo, n).append(v)
+    elif how == 'item':
+      fo.rebind({f'{n}[{len(varargs) - 1}]': v}, raise_on_no_change=False)
     else:
       setattr(fo, n, v)
     ctx.label = None
     c['late_bindings'] += 1
+    c['late_binding:' + (how if n != sig['varargs'] else 'varargs-' + how)] += 1
   if rebinds:
     check_report(ctx, t, t.fkind, fo, state, witness, where='sym_init_args-after-rebind')
-    check_functor_props(ctx, t, fo, state, witness)
+    check_functor_props(ctx, t, fo, state, witness,
+                        suffix='-after-rebind-below' if pattern == 'rebind-below' else '')
 
   # call
   override = override_at is not None
@@ -638,22 +704,21 @@ def functor_call(ctx, t, j, rng):
         if n not in state[0] and n not in state[2] and n not in t.defaults:
           kj[n] = v
     expj = expected(state, [], kj)
-    copies = [('json-differs', 'json-round-trip', JSON_FORMS[c['json_checks'] % len(JSON_FORMS)])]
-    if c['json_checks'] % 3 == 0 and t.picklable:
-      copies.append(('pickle-differs', 'pickle-round-trip', pickled))
-    for what, label, roundtrip in copies:
+    for what, label, option, roundtrip in copy_forms(c, t):
       c['json_checks' if what == 'json-differs' else 'pickle_checks'] += 1
+      # (one key per JSON option: the kind of target does not matter for it)
+      kind = f'{option}:functor' if option else t.fkind
       ctx.label = 'functor.' + label
       back = roundtrip(fo)
       ctx.label = None
-      okr = check_report(ctx, t, t.fkind, back, state, witness, what=what, where='sym_init_args')
+      okr = check_report(ctx, t, kind, back, state, witness, what=what, where='sym_init_args')
       gotj = invoke(back, [], kj, force_override=False)
       if okr and (gotj[0] != expj[0] or (expj[0] == 'ok' and not same(expj[1], gotj[1]))):
-        ctx.violation(what, f'{t.fkind}:call-outcome',
+        ctx.violation(what, f'{kind}:call-outcome',
                       f'call(**{kj!r}) on the round-tripped functor: expected {expj!r:.200}, got {gotj!r:.200}',
                       witness)
       elif okr:
-        check_copy_order(ctx, t, t.fkind, what, fo, back, got, gotj, set(state[2]), witness)
+        check_copy_order(ctx, t, kind, what, fo, back, got, gotj, set(state[2]), witness)
   return 'returned' if got[0] == 'ok' else 'rejected'
 
 
@@ -726,22 +791,21 @@ def class_call(ctx, t, j, rng):
   else:
     check_copy_order(ctx, t, t.ckind, 'clone-differs', obj, cl, ('ok', obj.got), ('ok', cl.got), None,
                      witness)
-  copies = [('json-differs', 'json-round-trip', JSON_FORMS[c['json_checks'] % len(JSON_FORMS)])]
-  if c['json_checks'] % 3 == 0 and t.picklable:
-    copies.append(('pickle-differs', 'pickle-round-trip', pickled))
-  for what, label, roundtrip in copies:
+  for what, label, option, roundtrip in copy_forms(c, t):
     c['json_checks' if what == 'json-differs' else 'pickle_checks'] += 1
+    kind = f'{option}:class' if option else t.ckind
     ctx.label = 'class.' + label
     t.reset()
     back = roundtrip(obj)
     ctx.label = None
-    check_report(ctx, t, t.ckind, back, state, witness, what=what, where='sym_init_args')
+    if not check_report(ctx, t, kind, back, state, witness, what=what, where='sym_init_args'):
+      continue
     if not same(want[1], back.got):
-      ctx.violation(what, f'{t.ckind}:init-arguments',
+      ctx.violation(what, f'{kind}:init-arguments',
                     f'expected {want[1]!r:.200}; round trip was initialised with {plain(back.got)!r:.200}',
                     witness)
     else:
-      check_copy_order(ctx, t, t.ckind, what, obj, back, ('ok', obj.got), ('ok', back.got), None, witness)
+      check_copy_order(ctx, t, kind, what, obj, back, ('ok', obj.got), ('ok', back.got), None, witness)
   return 'returned'
 
 
@@ -980,6 +1044,8 @@ class UTarget(Target):
     self.C = fn(self.K, auto_typing=True)
 
   def annotation(self, name=None, position=None):
+    if name is not None and name == self.sig['varargs']:
+      return self.sig['varargs_annot']
     return D.annotation_of(self.sig, name=name, position=position)
 
   def annotation_class(self, name):
@@ -995,7 +1061,13 @@ class UTarget(Target):
     if annot == '':
       return rng.randint(1, 9)        # (cannot be bound: both sides reject the call)
     if name in self.defaults and rng.random() < 0.1:
-      return copy_mod.deepcopy(self.defaults[name])       # explicitly bound to its default
+      d = self.defaults[name]
+      alt = [m(d) for m in D.ANNOTATION_MEMBERS[annot]
+             if m in (int, float, bool) and type(d) in (int, float, bool) and type(d) is not m
+             and m(d) == d]
+      if alt and rng.random() < 0.5:
+        return rng.choice(alt)    # equal to the default, of another member type (10.0 for 10)
+      return copy_mod.deepcopy(d)       # explicitly bound to its default
     return D.union_value(rng, annot)
 
   def make_call(self, rng, style=None):
@@ -1047,6 +1119,117 @@ def run_annotated(ctx, uid, rng):
     c['annotated:' + r] += 1
     if sum(v['count'] for v in ctx.violations.values()) != before:
       break       # one report per target
+  return t
+
+
+# -- legal signatures of a special shape ----------------------------------------------
+
+class XTarget(Target):
+  """A plain function whose first parameter is named like a method receiver, or
+  a function / class with positional-only parameters."""
+
+  def __init__(self, shape, uid, rng, variant):   # pylint: disable=super-init-not-called
+    sig, tag = D.special_signature(rng, shape, variant)
+    ns = sys.modules[MODULE].__dict__
+    params = D.render_annotated_params(sig)
+    fname, cname = f'xf_{uid}', f'XK_{uid}'
+    fsrc = f'def {fname}({params}):\n  return dict(locals())\n'
+    csrc = (f'class {cname}:\n'
+            f'  def __init__(self{", " + params if params else ""}):\n'
+            f'    got = dict(locals())\n'
+            f'    got.pop("self")\n'
+            f'    self.got = got\n')
+    exec(fsrc, ns)  # pylint: disable=exec-used
+    f = ns[fname]
+    self.has_class = variant != 'receiver-name'
+    if self.has_class:
+      exec(csrc, ns)  # pylint: disable=exec-used
+      K = ns[cname]
+    else:
+      K = type(cname, (), {})       # (a method cannot have two parameters named alike)
+    f.__module__ = K.__module__ = MODULE
+    Target.__init__(self, sig, uid, rng, f=f, K=K)
+    self.fsrc, self.csrc = fsrc, csrc
+    self.fkind, self.ckind = f'functor[{tag}]', f'class[{tag}]'
+    self.tag, self.variant = tag, variant
+    self.posonly = self.pos[:sig.get('posonly', 0)]
+
+  def make_call(self, rng, style=None):
+    a, k = S.make_call(rng, self.sig, style)
+    if self.sig['varkw']:
+      # (a keyword named like a positional-only parameter is one more **kwargs entry: not generated)
+      k = {n: v for n, v in k.items() if n not in self.posonly}
+    if self.variant == 'receiver-name' and self.pos[0] in k:
+      # (`self=` / `cls=` as a keyword of a constructor call is left open: given positionally)
+      v = k.pop(self.pos[0])
+      a = a or [v]
+    return a, k
+
+
+CALL_CLAUSES = ('rejects-valid', 'accepts-invalid', 'wrong-arguments', 'error-kind')
+LIB_DIR = __import__('os').path.dirname(pg.__file__)
+
+
+class FoldedCtx:
+  """The context, with every violation of a target that is ONE narrow class of
+  input folded into <clause>:<that class>; the clause says whether calls differ
+  or the arguments are described wrongly (reported arguments, signature, copies)."""
+
+  def __init__(self, ctx, tag):
+    object.__setattr__(self, '_ctx', ctx)
+    object.__setattr__(self, '_tag', tag)
+
+  def __getattr__(self, name):
+    return getattr(self._ctx, name)
+
+  def __setattr__(self, name, value):
+    setattr(self._ctx, name, value)
+
+  def violation(self, clause, mechanism, detail, case):
+    if mechanism.startswith('hide_default_values:'):
+      # (a key of a JSON option, whatever the kind of target)
+      return self._ctx.violation(clause, mechanism, detail, case)
+    # (an exception where none is expected: the library rejects what the interpreter accepts)
+    folded = ('rejects-valid' if clause == 'unexpected-exception'
+              else clause if clause in CALL_CLAUSES else 'described-wrongly')
+    return self._ctx.violation(folded, self._tag, f'[{clause}:{mechanism}]\n{detail}', case)
+
+
+def run_special(ctx, uid, rng, variant):
+  c = ctx.counters
+  while True:
+    shape = S.make_signature(rng)
+    if shape['pos']:
+      break
+  t = XTarget(shape, uid, rng, variant)
+  ctx.label = 'symbolize'
+  t.build()
+  ctx.label = None
+  c['special_targets:' + t.tag] += 1
+  before = sum(v['count'] for v in ctx.violations.values())
+  fctx = FoldedCtx(ctx, t.tag)
+  try:
+    for j in range(ctx.params['special_calls']):
+      if j % 3 == 2 and t.has_class:
+        r = class_call(fctx, t, j, rng)
+        c['special_class_constructions_compared'] += 1
+      else:
+        r = functor_call(fctx, t, j, rng)
+        c['special_functor_calls_compared'] += 1
+      c['special:' + r] += 1
+      if sum(v['count'] for v in ctx.violations.values()) != before:
+        return t       # one report per target
+    check_signature(fctx, t)
+  except Exception as e:  # pylint: disable=broad-except
+    tb = e.__traceback__
+    while tb.tb_next is not None:
+      tb = tb.tb_next
+    if not tb.tb_frame.f_code.co_filename.startswith(LIB_DIR):
+      raise
+    # the library raised where no exception is expected (after an earlier step that agreed)
+    fctx.violation('unexpected-exception', str(ctx.label), f'{type(e).__name__}: {e!s:.300}',
+                   t.witness(signature=D.render_annotated_params(t.sig)))
+    ctx.label = None
   return t
 
 
@@ -1697,6 +1880,7 @@ def run_case(ctx, i):
   run_nested(ctx, f'{ctx.shard}_{i}', rng)
   h = run_histories(ctx, t, f'{ctx.shard}_{i}', rng)
   run_annotated(ctx, f'{ctx.shard}_{i}', rng)
+  run_special(ctx, f'{ctx.shard}_{i}', rng, ['receiver-name', 'positional-only'][i % 2])
   if kinds >= 2 and {'returned', 'rejected'} <= results:
     ctx.mark_nontrivial((S.render_params(sig), t.entry, t.class_entry))
   if i < 2:
